@@ -65,33 +65,115 @@ def dup_helpers(ctx):
     from .. import tables
     out = {}
     for pth in sorted(ctx.F.bodies):
-        if "{closure" in pth or "::tests::" in pth or pth.startswith("<") or "::promoted[" in pth:
+        if "::tests::" in pth or pth.startswith("<") or "::promoted[" in pth:
+            continue
+        if "{closure" in pth:
+            # a local closure used as the helper:  let first_repeated = |keys: &[KeyCode]| keys.iter().enumerate().find(..)
+            b = ctx.body(pth)
+            if b.argc != 2 or b.loops() or len(b.blocks) > 40:
+                continue
+            kind = _scan_dup_kind(ctx, b, T("param", 2, b.dbg.get(2, "")))
+            if kind:
+                out[pth] = kind
             continue
         b = ctx.body(pth)
+        if b.argc == 1 and b.loops() and len(b.blocks) <= 80:
+            kind = _loop_dup_helper(ctx, b)
+            if kind:
+                out[pth] = kind
+            continue
         if b.argc != 1 or b.loops() or len(b.blocks) > 40:
             continue
-        keys = T("param", 1, b.dbg.get(1, ""))
-        rets = [p for p in mir.walk_function(b) if p.outcome[0] == "return"]
-        if len(rets) != 1:
-            continue
-        r = rets[0].outcome[1]
-        kind = "bool"
-        if isinstance(r, tuple) and r and r[0] == "call" and method_name(r[1]) == "map" and len(r[2]) == 2:
-            r = r[2][0]
-            kind = "option"
-        if not (isinstance(r, tuple) and r and r[0] == "call" and method_name(r[1]) in ("any", "find")):
-            continue
-        if method_name(r[1]) == "find":
-            kind = "option"
-        sc = tables.closure_scan(ctx.body, r)
-        if sc.problems or not sc.enum or sc.iter_term != T("iter", keys, "fwd") or len(sc.set_paths) != 1 or len(sc.set_paths[0]) != 1:
-            continue
-        a, v = sc.set_paths[0][0]
-        want_slice = T("index", keys, T("agg", "std::ops::RangeFrom", "RangeFrom", (T("binop", "Add", T("enumidx", sc.iter_term), T("const", T("int", 1, "usize"))),), ("start",)))
-        if v is True and isinstance(a, tuple) and a[0] == "in" and mir.strip(a[1]) == T("elem", sc.iter_term, None) and _same_slice(a[2], want_slice):
+        kind = _scan_dup_kind(ctx, b, T("param", 1, b.dbg.get(1, "")))
+        if kind:
             out[pth] = kind
     ctx.F._dup_helpers = out
     return out
+
+
+def _scan_dup_kind(ctx, b, keys):
+    from .. import tables
+    rets = [p for p in mir.walk_function(b) if p.outcome[0] == "return"]
+    if len(rets) != 1:
+        return None
+    r = rets[0].outcome[1]
+    kind = "bool"
+    if isinstance(r, tuple) and r and r[0] == "call" and method_name(r[1]) == "map" and len(r[2]) == 2:
+        r = r[2][0]
+        kind = "option"
+    if not (isinstance(r, tuple) and r and r[0] == "call" and method_name(r[1]) in ("any", "find")):
+        return None
+    if method_name(r[1]) == "find":
+        kind = "option"
+    sc = tables.closure_scan(ctx.body, r)
+    if sc.problems or not sc.enum or sc.iter_term != T("iter", keys, "fwd") or len(sc.set_paths) != 1 or len(sc.set_paths[0]) != 1:
+        return None
+    a, v = sc.set_paths[0][0]
+    want_slice = T("index", keys, T("agg", "std::ops::RangeFrom", "RangeFrom", (T("binop", "Add", T("enumidx", sc.iter_term), T("const", T("int", 1, "usize"))),), ("start",)))
+    if v is True and isinstance(a, tuple) and a[0] == "in" and mir.strip(a[1]) == T("elem", sc.iter_term, None) and _same_slice(a[2], want_slice):
+        return kind
+    return None
+
+
+def _loop_dup_helper(ctx, b):
+    """fn(keys) written with the two index loops themselves:
+         for i in 0..keys.len() { for j in i+1..keys.len() { if keys[i] == keys[j] { return true | Some(..) } } }  false | None"""
+    keys = T("param", 1, b.dbg.get(1, ""))
+    hits = set()
+    for h in sorted(b.loops()):
+        if any(hh != h and hh in b.loops()[h] for hh in b.loops()):
+            continue
+        if not _unconditional_nest(b, h) or not all(_unconditional_nest(b, hh) for hh in b.loops() if hh != h and h in b.loops()[hh]):
+            return None
+        for p in mir.walk_loop_body(b, h):
+            data = [e for e in p.events if e.kind == "guard" and not (isinstance(e.a, tuple) and e.a[0] == "variantof")]
+            if p.outcome[0] == "return":
+                if len(data) != 1 or data[0].b is not True or not (isinstance(data[0].a, tuple) and data[0].a[0] == "eq"):
+                    return None
+                a = data[0].a
+                s1, s2 = mir.strip(a[1]), mir.strip(a[2])
+                if not (isinstance(s1, tuple) and isinstance(s2, tuple) and s1[0] == "index" and s2[0] == "index" and mir.strip(s1[1]) == keys and mir.strip(s2[1]) == keys):
+                    return None
+                rng = []
+                for ix in (s1[2], s2[2]):
+                    if isinstance(ix, tuple) and ix[0] == "elem" and isinstance(ix[1], tuple) and ix[1][0] == "iter":
+                        r = ix[1][1]
+                        if isinstance(r, tuple) and r[0] == "agg" and r[1] == "std::ops::Range" and mir.strip(r[3][1]) in (T("len", keys), T("len", s1[1])):
+                            rng.append((ix, r[3][0]))
+                if len(rng) != 2:
+                    return None
+                (xa, la), (xb, lb) = rng
+                one = T("const", T("int", 1, "usize"))
+                if not ((const_int(la) == 0 and lb == T("binop", "Add", xa, one)) or (const_int(lb) == 0 and la == T("binop", "Add", xb, one))):
+                    return None
+                r = p.outcome[1]
+                if const_int(r) == 1:
+                    hits.add("bool")
+                elif isinstance(r, tuple) and r and r[0] == "agg" and r[2] == "Some":
+                    hits.add("option")
+                else:
+                    return None
+            elif p.outcome[0] not in ("backedge", "unreachable", "infeasible") and not (isinstance(p.outcome, tuple) and p.outcome[0] in ("exit", "break", "stop")):
+                pass
+    if len(hits) != 1:
+        return None
+    kind = list(hits)[0]
+    # every way out of the loops other than a hit answers "no duplicate"
+    # (a path that runs through a summarised inner loop may be that loop's hit: it is judged where the loop is walked)
+    levels = [mir.walk_function(b)] + [mir.walk_loop_body(b, h) for h in sorted(b.loops())]
+    n_no = 0
+    for paths in levels:
+        for p in paths:
+            if p.outcome[0] != "return" or any(e.kind == "loop" for e in p.events):
+                continue
+            if [e for e in p.events if e.kind == "guard" and isinstance(e.a, tuple) and e.a[0] == "eq" and e.b is True]:
+                continue
+            r = p.outcome[1]
+            no = (const_int(r) == 0) if kind == "bool" else (isinstance(r, tuple) and r and r[0] == "agg" and r[2] == "None")
+            if not no:
+                return None
+            n_no += 1
+    return kind if n_no else None
 
 
 def _same_slice(t, want):
@@ -119,24 +201,70 @@ def _helper_checks(ctx, body, subject_pred, strict):
                 if e.kind != "guard" or not isinstance(e.a, tuple):
                     continue
                 c = e.a[1] if e.a[0] == "variantof" else e.a
-                if not (isinstance(c, tuple) and c and c[0] == "call" and c[1] in helpers and len(c[2]) == 1):
+                if not (isinstance(c, tuple) and c and c[0] == "call" and c[1] in helpers):
+                    continue
+                if "{closure" in c[1]:
+                    # calling a closure: (environment, (keys,))
+                    if not (len(c[2]) == 2 and isinstance(c[2][1], tuple) and c[2][1][0] == "tuple" and len(c[2][1][1]) == 1):
+                        continue
+                    arg0 = c[2][1][1][0]
+                elif len(c[2]) == 1:
+                    arg0 = c[2][0]
+                else:
                     continue
                 hit = (e.b == "Some") if e.a[0] == "variantof" else (e.b is True)
                 if not hit:
                     continue
-                vec = mir.strip(c[2][0])
+                vec = mir.strip(arg0)
                 while isinstance(vec, tuple) and vec and vec[0] in ("call",) and method_name(vec[1]) in ("deref", "as_slice", "as_ref"):
                     vec = mir.strip(vec[2][0])
+                # `for (name, keys) in [("from", &m.from), ("to", &m.to)] { if let Some(k) = helper(keys) { FAIL } }`:
+                # the element of a literal array stands for each of its members in turn (the `for` visits them all:
+                # the only ways out of the body are this failure and the next element)
+                vecs = [vec]
+                if isinstance(vec, tuple) and vec[0] == "field" and isinstance(vec[1], tuple) and vec[1] and vec[1][0] == "elem" \
+                        and isinstance(vec[1][1], tuple) and vec[1][1][0] == "iter" and vec[1][1][2] == "fwd" \
+                        and isinstance(vec[1][1][1], tuple) and vec[1][1][1][0] == "array" and str(vec[2]).isdigit():
+                    members = vec[1][1][1][1]
+                    if all(isinstance(m_, tuple) and m_[0] == "tuple" and int(vec[2]) < len(m_[1]) for m_ in members) and _array_loop_is_total(body, vec[1][1], helpers):
+                        vecs = [mir.strip(m_[1][int(vec[2])]) for m_ in members]
+                for vec in vecs:
+                    _one_helper_check(vec, subject_pred, strict, p, i, helpers, seen, out)
+    return out
+
+
+def _array_loop_is_total(body, it, helpers):
+    """every path of the loop over `it` either goes on to the next element or leaves the function (no break)"""
+    for h in sorted(body.loops()):
+        paths = mir.walk_loop_body(body, h)
+        mine = [p for p in paths if any(e.kind == "guard" and isinstance(e.a, tuple) and e.a[0] == "variantof" and isinstance(e.a[1], tuple) and e.a[1][0] == "next" and e.a[1][1] == it for e in p.events[:2])]
+        if not mine:
+            continue
+        for p in mine:
+            first = [e for e in p.events if e.kind == "guard"][0]
+            if first.b == "None":
+                continue           # exhaustion
+            if p.outcome[0] in ("backedge", "return", "diverge"):
+                continue
+            return False
+        return True
+    return False
+
+
+def _one_helper_check(vec, subject_pred, strict, p, i, helpers, seen, out):
+    if True:
+        if True:
+            if True:
                 if not (isinstance(vec, tuple) and vec[0] == "field" and subject_pred(vec[1])):
-                    continue
+                    return
                 if strict:
                     data = [g for g in p.events[:i] if g.kind == "guard" and isinstance(g.a, tuple) and not (g.a[0] == "variantof" and isinstance(g.a[1], tuple) and g.a[1][0] == "next")
                             and not (isinstance(g.a, tuple) and ((g.a[0] == "variantof" and isinstance(g.a[1], tuple) and g.a[1][0] == "call" and g.a[1][1] in helpers) or (g.a[0] == "call" and g.a[1] in helpers)))]
                     if data:
-                        continue
+                        return
                 rest = p.events[i + 1:]
                 if [g for g in rest if g.kind == "guard" and not (isinstance(g.a, tuple) and g.a[0] == "variantof" and isinstance(g.a[1], tuple) and g.a[1][0] in ("try",))]:
-                    continue    # the failure is not the immediate consequence
+                    return    # the failure is not the immediate consequence
                 if p.outcome[0] == "diverge":
                     key = (vec[2], "panic")
                     if key not in seen:
@@ -147,7 +275,6 @@ def _helper_checks(ctx, body, subject_pred, strict):
                     if key not in seen:
                         seen.add(key)
                         out.append((vec[2], "err", None))
-    return out
 
 
 def pairwise_checks(ctx, body, subject_pred, strict=False):
